@@ -4,7 +4,7 @@
     files:[{name, size, mrel}], removed:[names], selected:[names] (what the tool lists for the targets alone),
     installed:[{dist:[names]}],
     repo:[{cat, pkg, ver, slot, sub, repo : [chars], dist:[names], restricted:BOOL}],
-    excludes:[[chars]], opts:{exclInstalled, exclExists, exclFetch, useM, useS, T, S},
+    excludes:[[chars]] (patterns given with -x), xfile:[[chars]] (patterns in the -X exclusion file), opts:{exclInstalled, exclExists, exclFetch, useM, useS, T, S},
     outside:BOOL (anything outside the distdir's plain files changed)}
    Clauses: those of Pclean!Violations, plus OutsideUntouched.                                     *)
 EXTENDS Pclean, TraceLib
@@ -13,12 +13,12 @@ AsRepoPkg(x) == [pk |-> [cat |-> x.cat, pkg |-> x.pkg, ver |-> ParseVer(x.ver), 
                  dist |-> AsSet(x.dist), restricted |-> x.restricted]
 Judge(e) ==
     LET repo == {AsRepoPkg(e.repo[k]) : k \in DOMAIN e.repo} IN
-    IF ~ExcludesOK(e.excludes) \/ \E p \in repo : ~p.pk.ver.ok THEN {"OutsideDomain"}
+    IF ~ExcludesOK(e.excludes \o e.xfile) \/ \E p \in repo : ~p.pk.ver.ok THEN {"OutsideDomain"}
     ELSE LET K == [files |-> AsSet(e.files), selected |-> AsSet(e.selected),
                    installedDist |-> UNION {AsSet(e.installed[k].dist) : k \in DOMAIN e.installed},
                    existsDist |-> DistOf(repo),
                    restrictedDist |-> DistOf({p \in repo : p.restricted}),
-                   excludedDist |-> DistOf({p \in repo : IsExcluded(e.excludes, p)}),
+                   excludedDist |-> DistOf({p \in repo : IsExcluded(e.excludes \o e.xfile, p)}),
                    opts |-> e.opts]
          IN Violations(K, AsSet(e.removed)) \cup (IF e.outside THEN {"OutsideUntouched"} ELSE {})
 TraceInit == l = 0
